@@ -126,6 +126,22 @@ check("C13", "runtime monitoring: post-condition on every qubit-gate constructor
       "Trusted: textbook matrices in /verif/lwverif/qubitref.py, own permanent; exhaustive only over the discrete part.",
       "DESIGN.md 4 C13")
 
+check("C17", "runtime monitoring: post-conditions on SimulationResult/SamplingResult construction and on the threshold/parity "
+      "mappings of both containers (image keys, merged weights, per-input totals, refusal for amplitudes), over seeded "
+      "random result contents with colliding images and repeated application",
+      "Held on the contents explored: pair / nested / array indexing agree in list order, sampling results return their "
+      "counts, mappings send each output to its per-mode image, add coinciding weights, keep per-input totals and inputs, "
+      "and are refused for amplitude-valued results.",
+      "Trusted: the per-mode image functions written in the check; totals to 1e-12 relative.", "DESIGN.md 4 C17")
+check("C18", "runtime monitoring: creation-time snapshot table for every State/AnnotatedState re-verified after the workload "
+      "mutates every value the API returned; law checkers for ==/hash/+/merge/slices/counts, herald insert/remove "
+      "round trip, dB<->decimal, seeded random unitaries/permutations",
+      "Held on the operations explored: no state changed through its API, equality iff occupations match with equal "
+      "hashes, + concatenates, merge adds mode-wise, slices are states, label order irrelevant, remove(add(s,h)) = s for "
+      "any key order and positions, unit conversions invert each other, seeded random matrices valid and reproducible.",
+      "Trusted: law definitions in the check; lists passed by the caller to a constructor are outside 'through the API'.",
+      "DESIGN.md 4 C18")
+
 NOT_APPLICABLE = []
 _EXPLICIT_NA = {}
 for line in open("/verif/properties.jsonl"):
